@@ -784,6 +784,16 @@ class HostInterp:
           outs.append(self._invoke(alt, args, kwargs, pc + ((f"select:{alt.text}", True),), loc))
       if outs:
         return self._join(outs)
+    if isinstance(target, Mod) and target.kind == "class" and target.name not in OBJ_CLASSES and self._dataclass_fields(target.name) is not None:
+      flds = self._dataclass_fields(target.name)
+      self._temp_n += 1
+      o = Obj(target.name, f"{target.name}#{self._temp_n}")
+      for k, v in list(zip(flds, args)) + list(kwargs.items()):
+        o.overrides[k] = v
+        if isinstance(v, Temp) and v.var is None:
+          v.var = k
+          v.ctx_attr = k
+      return o
     if isinstance(target, Mod) and target.kind == "class" and target.name in OBJ_CLASSES:
       self._temp_n += 1
       o = Obj(target.name, f"{target.name}#{self._temp_n}")
@@ -854,6 +864,13 @@ class HostInterp:
             break
     self._launch_memo[fi.key] = res
     return res
+
+  def _dataclass_fields(self, cname: str):
+    for m in self.sm.modules.values():
+      cls = m.classes.get(cname)
+      if cls is not None and any(unparse(d).startswith("dataclasses.dataclass") for d in cls.decorator_list):
+        return [st.target.id for st in cls.body if isinstance(st, ast.AnnAssign) and isinstance(st.target, ast.Name)]
+    return None
 
   def _is_kernel_factory(self, fi: FuncInfo) -> bool:
     """A plain host function whose only job is to build and return a nested kernel/func."""
